@@ -1664,3 +1664,470 @@ func genLockTable(repo string, out *bytes.Buffer) error {
 	out.WriteString("].\n\n")
 	return nil
 }
+
+// ---------------------------------------------------------------- bot.Conn: the packet buffer travelling through the queue
+
+// genConnPool translates the hand-over of the per-connection packet buffers (bot/client.go warpConn: the reader
+// goroutine takes a buffer from wc.pool, reads a packet into it and pushes the packet into the receive queue;
+// bot/ingame.go HandleGame / handleBundlePackets: the consumer pulls packets, runs the handlers and puts the
+// buffer back) into ownership events: EGet/EUse/ESend for the reader, ERecv/EUse/EPut for the consumer, EDrop
+// where the last reference to a buffer is lost without Put.  Each statement must have one of the shapes below;
+// loops over a bundle are executed for 0, 1 and 2 collected packets.  Slot numbers are allocated in order.
+type cpState struct {
+	bind      map[string]int // packet variable -> slot (-1: no packet)
+	collected []int          // packets = append(packets, p)
+	cur       int            // slot of packets[i] inside `for i := range packets`
+	events    []string
+	live      []int
+	next      int
+	errFlag   bool // the last `err := f()` failed
+	jump      string
+	base      int // first slot of the current frame
+}
+
+func (s *cpState) clone() *cpState {
+	t := *s
+	t.bind = map[string]int{}
+	for k, v := range s.bind {
+		t.bind[k] = v
+	}
+	t.collected = append([]int(nil), s.collected...)
+	t.events = append([]string(nil), s.events...)
+	t.live = append([]int(nil), s.live...)
+	return &t
+}
+func (s *cpState) ev(kind string, slot int) {
+	s.events = append(s.events, fmt.Sprintf("%s %d", kind, slot))
+	if kind == "EPut" || kind == "ESend" || kind == "EDrop" {
+		var l []int
+		for _, x := range s.live {
+			if x != slot {
+				l = append(l, x)
+			}
+		}
+		s.live = l
+	}
+	if kind == "EGet" || kind == "ERecv" {
+		s.live = append(s.live, slot)
+	}
+}
+
+// dropFrame: the frame ends; every buffer it still references (and that was not collected by an outer frame) is lost
+func (s *cpState) dropFrame(base int) {
+	ls := append([]int(nil), s.live...)
+	sort.Ints(ls)
+	for _, x := range ls {
+		if x >= base {
+			s.ev("EDrop", x)
+		}
+	}
+}
+
+type cpCtx struct {
+	fset  *token.FileSet
+	funcs map[string]*ast.FuncDecl
+	recv  string
+	depth int
+}
+
+func (c *cpCtx) errf(n ast.Node, f string, a ...any) error {
+	return fmt.Errorf("%s: conn pool translation: %s", c.fset.Position(n.Pos()), fmt.Sprintf(f, a...))
+}
+
+// slotOf: p or packets[i]
+func (c *cpCtx) slotOf(e ast.Expr, st *cpState) (int, bool) {
+	switch x := e.(type) {
+	case *ast.Ident:
+		s, ok := st.bind[x.Name]
+		return s, ok && s >= 0
+	case *ast.IndexExpr:
+		if id, ok := x.X.(*ast.Ident); ok && id.Name == "packets" && st.cur >= 0 {
+			return st.cur, true
+		}
+	}
+	return 0, false
+}
+
+var cpReadPacket = map[string]bool{"c.Conn.ReadPacket": true, "c.ReadPacket": true}
+
+// returns (fallthrough states, returned states)
+func (c *cpCtx) block(list []ast.Stmt, live []*cpState) (out, done []*cpState, err error) {
+	for _, s := range list {
+		var next []*cpState
+		for _, st := range live {
+			if st.jump != "" { // looking for a label
+				if ls, ok := s.(*ast.LabeledStmt); ok && ls.Label.Name == st.jump {
+					st.jump = ""
+				} else {
+					next = append(next, st)
+					continue
+				}
+			}
+			l, d, err := c.stmt(s, st)
+			if err != nil {
+				return nil, nil, err
+			}
+			next = append(next, l...)
+			done = append(done, d...)
+		}
+		live = next
+	}
+	return live, done, nil
+}
+
+func isReturnErr(s ast.Stmt) bool {
+	r, ok := s.(*ast.ReturnStmt)
+	return ok && len(r.Results) == 1 && es(r.Results[0]) == "err"
+}
+
+func (c *cpCtx) stmt(s ast.Stmt, st *cpState) (live, done []*cpState, err error) {
+	switch x := s.(type) {
+	case *ast.LabeledStmt:
+		return c.stmt(x.Stmt, st)
+	case *ast.DeclStmt:
+		gd := x.Decl.(*ast.GenDecl)
+		for _, sp := range gd.Specs {
+			vs, ok := sp.(*ast.ValueSpec)
+			if !ok || len(vs.Values) != 0 || len(vs.Names) != 1 {
+				return nil, nil, c.errf(s, "unknown declaration")
+			}
+			ts := es(vs.Type)
+			if at, ok := vs.Type.(*ast.ArrayType); ok && at.Len == nil {
+				ts = "[]" + es(at.Elt)
+			}
+			switch ts {
+			case "pk.Packet":
+				st.bind[vs.Names[0].Name] = -1 // a previous packet in this variable stays referenced by whoever collected it
+			case "[]pk.Packet":
+				st.collected = nil
+			default:
+				return nil, nil, c.errf(s, "unknown declaration of type %s", es(vs.Type))
+			}
+		}
+		return []*cpState{st}, nil, nil
+	case *ast.ExprStmt:
+		call, ok := x.X.(*ast.CallExpr)
+		if ok && (es(call.Fun) == "c.Conn.pool.Put" || es(call.Fun) == "c.pool.Put") && len(call.Args) == 1 {
+			sel, ok := call.Args[0].(*ast.SelectorExpr)
+			if !ok || sel.Sel.Name != "Data" {
+				return nil, nil, c.errf(s, "pool.Put of %s", es(call.Args[0]))
+			}
+			sl, ok := c.slotOf(sel.X, st)
+			if !ok {
+				return nil, nil, c.errf(s, "pool.Put of an unknown packet %s", es(sel.X))
+			}
+			st.ev("EPut", sl)
+			return []*cpState{st}, nil, nil
+		}
+		return nil, nil, c.errf(s, "unknown statement %s", es(x.X))
+	case *ast.AssignStmt:
+		l, r := ess(x.Lhs), ess(x.Rhs)
+		switch {
+		case l == "packets" && strings.HasPrefix(r, "append(packets,") && len(x.Rhs) == 1:
+			call := x.Rhs[0].(*ast.CallExpr)
+			if len(call.Args) != 2 {
+				return nil, nil, c.errf(s, "unknown append")
+			}
+			sl, ok := c.slotOf(call.Args[1], st)
+			if !ok {
+				return nil, nil, c.errf(s, "append of an unknown packet")
+			}
+			st.collected = append(st.collected, sl)
+			return []*cpState{st}, nil, nil
+		case l == "err" && len(x.Rhs) == 1:
+			return c.callErr(s, x.Rhs[0], st)
+		}
+		return nil, nil, c.errf(s, "unknown assignment %s %s %s", l, x.Tok, r)
+	case *ast.IfStmt:
+		cond := es(x.Cond)
+		if x.Init != nil {
+			as, ok := x.Init.(*ast.AssignStmt)
+			if !ok || len(as.Lhs) != 1 || es(as.Lhs[0]) != "err" || len(as.Rhs) != 1 || cond != "err != nil" || x.Else != nil {
+				return nil, nil, c.errf(s, "unknown if-initialiser")
+			}
+			sts, _, err := c.callErr(s, as.Rhs[0], st)
+			if err != nil {
+				return nil, nil, err
+			}
+			for _, s0 := range sts {
+				if s0.errFlag {
+					s0.errFlag = false
+					l, d, err := c.block(x.Body.List, []*cpState{s0})
+					if err != nil {
+						return nil, nil, err
+					}
+					live = append(live, l...)
+					done = append(done, d...)
+				} else {
+					live = append(live, s0)
+				}
+			}
+			return live, done, nil
+		}
+		switch {
+		case cond == "err != nil" && x.Else == nil:
+			if st.errFlag {
+				st.errFlag = false
+				return c.block(x.Body.List, []*cpState{st})
+			}
+			return []*cpState{st}, nil, nil
+		case strings.HasSuffix(cond, ".ID == int32(packetid.BundleDelimiter)"):
+			thenSt, elseSt := st.clone(), st
+			l1, d1, err := c.block(x.Body.List, []*cpState{thenSt})
+			if err != nil {
+				return nil, nil, err
+			}
+			live, done = l1, d1
+			if x.Else != nil {
+				eb, ok := x.Else.(*ast.BlockStmt)
+				if !ok {
+					return nil, nil, c.errf(s, "unknown else")
+				}
+				l2, d2, err := c.block(eb.List, []*cpState{elseSt})
+				if err != nil {
+					return nil, nil, err
+				}
+				live = append(live, l2...)
+				done = append(done, d2...)
+			} else {
+				live = append(live, elseSt)
+			}
+			return live, done, nil
+		}
+		return nil, nil, c.errf(s, "unknown condition %s", cond)
+	case *ast.ForStmt:
+		if x.Cond == nil { // for { ... }: one iteration (the caller decides what the end of an iteration means)
+			return nil, nil, c.errf(s, "nested endless loop")
+		}
+		// for i := 0; i < N; i++ { collect }: 0, 1, 2 collected packets; a third append is cut off
+		cur := []*cpState{st}
+		for iter := 0; iter < 3; iter++ {
+			l, d, err := c.block(x.Body.List, cur)
+			if err != nil {
+				return nil, nil, err
+			}
+			done = append(done, d...)
+			cur = nil
+			for _, s0 := range l {
+				if s0.jump != "" {
+					live = append(live, s0) // left the loop through goto
+				} else if iter < 2 {
+					cur = append(cur, s0)
+				}
+			}
+		}
+		return live, done, nil
+	case *ast.RangeStmt:
+		if es(x.X) != "packets" {
+			return nil, nil, c.errf(s, "range over %s", es(x.X))
+		}
+		cur := []*cpState{st}
+		for idx := 0; idx < len(st.collected); idx++ {
+			var next []*cpState
+			for _, s0 := range cur {
+				if s0.jump == "break" {
+					next = append(next, s0)
+					continue
+				}
+				s0.cur = s0.collected[idx]
+				l, d, err := c.block(x.Body.List, []*cpState{s0})
+				if err != nil {
+					return nil, nil, err
+				}
+				next = append(next, l...)
+				done = append(done, d...)
+			}
+			cur = next
+		}
+		for _, s0 := range cur {
+			if s0.jump == "break" {
+				s0.jump = ""
+			}
+			s0.cur = -1
+		}
+		return cur, done, nil
+	case *ast.BranchStmt:
+		switch x.Tok {
+		case token.GOTO:
+			st.jump = x.Label.Name
+		case token.BREAK:
+			st.jump = "break"
+		default:
+			return nil, nil, c.errf(s, "unknown branch")
+		}
+		return []*cpState{st}, nil, nil
+	case *ast.ReturnStmt:
+		st.errFlag = len(x.Results) == 1 && es(x.Results[0]) != "nil"
+		if len(x.Results) == 1 && es(x.Results[0]) == "err" {
+			st.errFlag = true // may be nil at run time (a swallowed error); the pool events are the same
+		}
+		st.dropFrame(st.base)
+		return nil, []*cpState{st}, nil
+	}
+	return nil, nil, c.errf(s, "unknown statement %T", s)
+}
+
+// callErr: err := <call>; sets errFlag on the failing outcome
+func (c *cpCtx) callErr(n ast.Node, e ast.Expr, st *cpState) (live, done []*cpState, err error) {
+	call, ok := e.(*ast.CallExpr)
+	if !ok {
+		return nil, nil, c.errf(n, "unknown err := %s", es(e))
+	}
+	fn := es(call.Fun)
+	switch {
+	case cpReadPacket[fn] && len(call.Args) == 1: // ReadPacket(&p): Pull; closed -> error, else the packet (and its buffer)
+		u, ok := call.Args[0].(*ast.UnaryExpr)
+		id, ok2 := u.X.(*ast.Ident)
+		if !ok || !ok2 || u.Op != token.AND {
+			return nil, nil, c.errf(n, "ReadPacket(%s)", es(call.Args[0]))
+		}
+		bad := st.clone()
+		bad.errFlag = true
+		st.bind[id.Name] = st.next
+		st.ev("ERecv", st.next)
+		st.next++
+		return []*cpState{st, bad}, nil, nil
+	case fn == "c.handlePacket" && len(call.Args) == 1: // the handlers read the packet
+		sl, ok := c.slotOf(call.Args[0], st)
+		if !ok {
+			return nil, nil, c.errf(n, "handlePacket of an unknown packet")
+		}
+		st.ev("EUse", sl)
+		bad := st.clone()
+		bad.errFlag = true
+		return []*cpState{st, bad}, nil, nil
+	case strings.HasPrefix(fn, "c.") && c.funcs[strings.TrimPrefix(fn, "c.")] != nil && len(call.Args) == 0:
+		fd := c.funcs[strings.TrimPrefix(fn, "c.")]
+		if c.depth > 2 {
+			return nil, nil, c.errf(n, "inlining too deep")
+		}
+		inner := st.clone()
+		inner.bind = map[string]int{}
+		inner.collected = nil
+		inner.base = st.next
+		c.depth++
+		l, d, err := c.block(fd.Body.List, []*cpState{inner})
+		c.depth--
+		if err != nil {
+			return nil, nil, err
+		}
+		for _, s0 := range l {
+			s0.errFlag = false
+			s0.dropFrame(s0.base)
+			d = append(d, s0)
+		}
+		for _, s0 := range d {
+			o := st.clone()
+			o.events, o.live, o.next, o.errFlag = s0.events, s0.live, s0.next, s0.errFlag
+			live = append(live, o)
+		}
+		return live, nil, nil
+	}
+	return nil, nil, c.errf(n, "unknown call err := %s", es(e))
+}
+
+func emitSeqs(out *bytes.Buffer, name string, sts []*cpState) {
+	seen := map[string]bool{}
+	var seqs []string
+	for _, s := range sts {
+		g := glist(s.events)
+		if !seen[g] {
+			seen[g] = true
+			seqs = append(seqs, g)
+		}
+	}
+	fmt.Fprintf(out, "Definition %s : list (list pev) :=\n  [%s].\n\n", name, strings.Join(seqs, ";\n   "))
+}
+
+func genConnPool(repo string, out *bytes.Buffer) error {
+	fset := token.NewFileSet()
+	files, _, err := parseDir(fset, repo+"/bot")
+	if err != nil {
+		return err
+	}
+	c := &cpCtx{fset: fset, funcs: map[string]*ast.FuncDecl{}}
+	for _, f := range files {
+		for _, d := range f.Decls {
+			if fd, ok := d.(*ast.FuncDecl); ok && fd.Body != nil {
+				c.funcs[fd.Name.Name] = fd
+			}
+		}
+	}
+	// ---- the reader goroutine of warpConn
+	wf := c.funcs["warpConn"]
+	if wf == nil {
+		return fmt.Errorf("%s/bot: warpConn not found", repo)
+	}
+	var lit *ast.FuncLit
+	ast.Inspect(wf.Body, func(n ast.Node) bool {
+		if g, ok := n.(*ast.GoStmt); ok && lit == nil {
+			if fl, ok := g.Call.Fun.(*ast.FuncLit); ok {
+				lit = fl
+			}
+		}
+		return true
+	})
+	if lit == nil || len(lit.Body.List) != 2 {
+		return c.errf(wf, "reader goroutine of warpConn: unknown shape")
+	}
+	loop, ok := lit.Body.List[0].(*ast.ForStmt)
+	if !ok || loop.Cond != nil || loop.Init != nil || len(loop.Body.List) != 3 {
+		return c.errf(lit, "reader goroutine: expected `for { get; read; push }`")
+	}
+	if es(lit.Body.List[1].(*ast.ExprStmt).X) != "wc.recv.Close()" {
+		return c.errf(lit, "reader goroutine: expected wc.recv.Close() after the loop")
+	}
+	rd := &cpState{bind: map[string]int{}, cur: -1}
+	as, ok := loop.Body.List[0].(*ast.AssignStmt)
+	if !ok || as.Tok != token.DEFINE || ess(as.Lhs) != "p" || !strings.HasPrefix(ess(as.Rhs), "pk.Packet{Data:wc.pool.Get().(") {
+		return c.errf(loop, "reader goroutine: statement 1 is `%s`", ess(as.Rhs))
+	}
+	rd.bind["p"] = 0
+	rd.next = 1
+	rd.ev("EGet", 0)
+	var readerDone []*cpState
+	if1, ok := loop.Body.List[1].(*ast.IfStmt)
+	if !ok || if1.Init == nil || es(if1.Cond) != "err != nil" || ess(if1.Init.(*ast.AssignStmt).Rhs) != "c.ReadPacket(&p)" || len(if1.Body.List) != 2 {
+		return c.errf(loop, "reader goroutine: statement 2 unknown")
+	}
+	if _, ok := if1.Body.List[1].(*ast.BranchStmt); !ok || es(if1.Body.List[0].(*ast.AssignStmt).Lhs[0]) != "wc.rerr" {
+		return c.errf(if1, "reader goroutine: error branch of ReadPacket unknown")
+	}
+	rd.ev("EUse", 0) // ReadPacket(&p) decodes into the buffer
+	bad := rd.clone()
+	bad.dropFrame(0) // break: the packet variable goes out of scope
+	readerDone = append(readerDone, bad)
+	if2, ok := loop.Body.List[2].(*ast.IfStmt)
+	if !ok || if2.Init == nil || es(if2.Cond) != "!ok" || ess(if2.Init.(*ast.AssignStmt).Rhs) != "wc.recv.Push(p)" || len(if2.Body.List) != 2 {
+		return c.errf(loop, "reader goroutine: statement 3 unknown")
+	}
+	full := rd.clone()
+	full.dropFrame(0) // Push refused (bounded queue full): the packet is lost
+	readerDone = append(readerDone, full)
+	rd.ev("ESend", 0)
+	rd.dropFrame(0)
+	readerDone = append(readerDone, rd)
+	out.WriteString("(* bot.Conn: the packet buffers of a connection.  Reader goroutine of warpConn, one loop iteration *)\n")
+	emitSeqs(out, "conn_reader_paths", readerDone)
+	// ---- HandleGame, one iteration of its loop (handleBundlePackets inlined, 0..2 bundled packets)
+	hg := c.funcs["HandleGame"]
+	if hg == nil || len(hg.Body.List) != 1 {
+		return fmt.Errorf("%s/bot: HandleGame: unknown shape", repo)
+	}
+	hl, ok := hg.Body.List[0].(*ast.ForStmt)
+	if !ok || hl.Cond != nil || hl.Init != nil {
+		return c.errf(hg, "HandleGame: expected `for { ... }`")
+	}
+	st := &cpState{bind: map[string]int{}, cur: -1}
+	l, d, err := c.block(hl.Body.List, []*cpState{st})
+	if err != nil {
+		return err
+	}
+	for _, s0 := range l { // end of the iteration: the packet variable is overwritten by the next one
+		s0.dropFrame(0)
+		d = append(d, s0)
+	}
+	out.WriteString("(* bot.HandleGame, one iteration (bundles of 0, 1 and 2 packets) *)\n")
+	emitSeqs(out, "conn_consumer_paths", d)
+	return nil
+}
